@@ -67,16 +67,18 @@ def rule_a(ctx, ix, reg):
     f = vd.resolve_func('__setitem__')
     if f is None:
         raise AnalysisError('VersionedDict.__setitem__ vanished')
+    from ..util import expand_locals
+    # local aliases (versions = self._data[item]; previous = version - 1) are read through
     stores = [st for st in walk_no_nested(f.node) if isinstance(st, ast.Assign)
-              and isinstance(st.targets[0], ast.Subscript) and '_data' in unparse(st.targets[0])]
+              and isinstance(st.targets[0], ast.Subscript) and '_data' in unparse(expand_locals(f.node, st.targets[0]))]
     if len(stores) != 1:
         raise AnalysisError('VersionedDict.__setitem__: expected exactly one store into _data')
     store = stores[0]
-    guards = [n for n in walk_no_nested(f.node) if isinstance(n, ast.If) and n.lineno < store.lineno
+    guards = [(n, expand_locals(f.node, n.test)) for n in walk_no_nested(f.node) if isinstance(n, ast.If) and n.lineno < store.lineno
               and any(isinstance(b, ast.Raise) for b in n.body)]
-    skip = [g for g in guards if ('- 1' in unparse(g.test) or '-1' in unparse(g.test)) and 'not in' in unparse(g.test)]
-    over = [g for g in guards if isinstance(g.test, ast.Compare) and isinstance(g.test.ops[0], ast.In)
-            and 'version' in unparse(g.test.left)]
+    skip = [g for g, t in guards if ('- 1' in unparse(t) or '-1' in unparse(t)) and 'not in' in unparse(t)]
+    over = [g for g, t in guards if isinstance(t, ast.Compare) and isinstance(t.ops[0], ast.In)
+            and 'version' in unparse(t.left)]
     ctx.ob(R, f.construct, 'skipping a version raises before the store', bool(skip),
            detail='VersionedDict.__setitem__ no longer refuses to register version n before n-1', where=f.where)
     ctx.ob(R, f.construct, 'overwriting a version raises before the store', bool(over),
@@ -86,8 +88,9 @@ def rule_a(ctx, ix, reg):
         if g is None:
             raise AnalysisError('VersionedDict.%s vanished' % name)
         rets = [r for r in returns_of(g) if r.value is not None]
-        latest = [r for r in rets if 'max(' in unparse(r.value)]
-        bad = [r for r in rets if 'min(' in unparse(r.value)]
+        from ..util import expand_locals
+        latest = [r for r in rets if 'max(' in unparse(expand_locals(g.node, r.value))]
+        bad = [r for r in rets if 'min(' in unparse(expand_locals(g.node, r.value))]
         ctx.ob(R, g.construct, 'the default lookup returns the highest version', bool(latest) and not bad,
                detail='VersionedDict.%s does not return the max() version by default' % name, where=g.where)
 
